@@ -351,11 +351,13 @@ def dstZone (soft : Soft W) (z : Zone) (s : Node W) (f : Frame) : Option Zone :=
 
 /-- **`firewall_path`**: for a frame arriving from zone `z₁`, permitted by `z₁`'s first list and not addressed
 to the firewall's own software, the second stage is exactly the `zoneTable z₁ z₂` entry point (with its list),
-where `z₂` is the destination zone as resolved by the code. -/
+where `z₂` is the destination zone as resolved by the code (from the DMZ a layer-2 broadcast is dropped before any look-up). -/
 theorem C06_firewall_path (soft : Soft W) (z₁ : Zone) (s2 : Node W) (f : Frame) :
     fwNext soft (zoneEntry z₁) (zonePort z₁) f s2 =
       match z₁ with
-      | .dmz => (soft.dmzLookup s2 (zonePort .dmz) f).bind fun s3 =>
+      | .dmz =>
+        if f.dstMac == bcastMac then .done s2 else
+        (soft.dmzLookup s2 (zonePort .dmz) f).bind fun s3 =>
           match (dstZone soft .dmz s3 f).bind (zoneTable .dmz) with
           | some e => fwFinal soft e s3 (zonePort .dmz) f
           | none => .done s3
@@ -367,6 +369,8 @@ theorem C06_firewall_path (soft : Soft W) (z₁ : Zone) (s2 : Node W) (f : Frame
   | int => simp only [zoneEntry, fwNext, dstZone]; split <;> simp [zoneTable]
   | dmz =>
     simp only [zoneEntry, fwNext, dstZone]
+    split
+    · rfl
     congr 1
     funext s3
     cases soft.dmzOutNic s3 f with
@@ -509,6 +513,8 @@ theorem nodeLayer_pres (soft : Soft W) (P : Node W → Prop) (hsw : ∀ s x, P s
           | intOut => simp only [fwNext]; split <;> exact hfinal _ _ h2
           | dmzOut =>
             simp only [fwNext]
+            split
+            · exact Pres.done h2
             refine pres_bind P _ _ (hk.dmzLookup _ _ _ h2) ?_
             intro s3 hs3
             split
